@@ -146,6 +146,8 @@ def check_basis(case):
         for vname, var in variants:
             img = [Perm(ref.sym_perm(g, p)) for p in var]
             got = _names(find_strategies(img, long_runnning=False))
+            if vname == "given" and _names(find_strategies(iter(img), long_runnning=False)) != got:
+                return BAD("find_strategies_iterator_argument", {"symmetry": g, "basis": [list(p) for p in img]})
             if got != want_fast or len(got) != len(set(got)):
                 return BAD("find_strategies_fast", {"symmetry": g, "variant": vname, "basis": [list(p) for p in img], "got": got, "want": want_fast})
             if g != "id" and vname != "given":
